@@ -777,5 +777,33 @@ theorem elim_pyShape {n : NFA σ α} (wf : n.WF) (ps : n.PyShape) : n.eliminateL
     obtain ⟨r, hr, her⟩ := row_mem_trans he
     exact ps.targets_nodup _ hr e her
 
+theorem runFrom_snoc (n : NFA σ α) (S : List σ) (w : List α) (a : α) :
+    n.runFrom S (w ++ [a]) = n.nextStates (n.runFrom S w) a := by
+  simp [NFA.runFrom, List.foldl_append]
+
+/-- Every state of the result is one of the current states after reading some word. -/
+theorem elim_reachable_word {n : NFA σ α} (wf : n.WF) (ps : n.PyShape) :
+    ∀ q ∈ n.eliminateLambda.states,
+      ∃ w, q ∈ n.eliminateLambda.runFrom (n.eliminateLambda.closure n.eliminateLambda.init) w := by
+  intro q hq
+  have hr := elim_reachable wf ps q hq
+  rw [elim_closure wf ps]
+  clear hq
+  induction hr with
+  | refl => exact ⟨[], by simp⟩
+  | tail _hab hc ih =>
+    rename_i b c
+    obtain ⟨w, hw⟩ := ih
+    obtain ⟨e, he, hce⟩ := List.mem_flatMap.mp hc
+    obtain ⟨r, hr, her⟩ := row_mem_trans he
+    cases h1 : e.1 with
+    | none => exact absurd h1 (elim_noEps wf ps _ hr e her)
+    | some a =>
+      refine ⟨w ++ [a], ?_⟩
+      rw [runFrom_snoc, NFA.mem_nextStates]
+      refine ⟨b, hw, c, ?_, by rw [elim_closure wf ps]; simp⟩
+      refine (mem_targets_iff (elim_pyShape wf ps) b (some a) c).mpr ⟨e.2, ?_, hce⟩
+      rw [← h1]; exact he
+
 end C07
 end AV
